@@ -71,10 +71,30 @@ def main():
             res["checks"].append(entry)
             if rc == 1 and "no-failing-input-found" not in out:
                 break
+        # when the property's own check has no failing input: do the global lifecycle checks see it?
+        if not any(c.get("with_failing_input") for c in res["checks"]):
+            res["other_checks"] = []
+            for other in ("C02", "C03"):
+                if other == prop:
+                    continue
+                rc, out = sh("cd %s && ./check %s --tier quick" % (V, other), timeout=3600, env=env)
+                m = re.search(r"replay=(\S+)", out)
+                keys = []
+                if m:
+                    try:
+                        rp = json.load(open(os.path.join(V, m.group(1))))
+                        keys = [v["key"] for v in rp.get("violations", [])][:6] or \
+                               [b["kind"] + ":" + b["name"][:60] for b in rp.get("no_longer_checks", [])][:4]
+                    except Exception:  # noqa: BLE001
+                        pass
+                res["other_checks"].append({"property": other, "rc": rc, "keys": keys,
+                                            "no_failing_input": "no-failing-input-found" in out})
     finally:
         sh("git -C /repo checkout -- .")
     rc, out = sh("cd %s && ./check %s --tier quick" % (V, prop), timeout=3600, env=env)
     res["clean_after_rc"] = rc
+    for oc in res.get("other_checks", []):
+        sh("cd %s && ./check %s --tier quick" % (V, oc["property"]), timeout=3600, env=env)   # restores Gen/*.lean
     return finish(d, res)
 
 
